@@ -66,7 +66,20 @@ impl ShapesRef for Obj {
     fn opr<'a>(&'a self, o: Option<&'a u32>) -> Option<&'a u32> { log_call(vec![self.id, 7, o.map(|x| x as *const u32 as i64).unwrap_or(0), o.map(|x| *x as i64).unwrap_or(-1)]); match o { Some(x) if *x % 2 == 0 => Some(x), Some(_) => Some(&self.cell), None => None } }
     fn into_(&self, x: impl Into<u64>) -> u64 { let x = x.into(); log_call(vec![self.id, 8, x as i64]); x.wrapping_mul(3) }
     fn outp(&self, out: &mut u32) { log_call(vec![self.id, 9, out as *mut u32 as i64, *out as i64]); *out = out.wrapping_add(self.cell); }
-    fn cb(&self, mut cb: OpaqueCallback<u32>) -> usize { log_call(vec![self.id, 10]); let mut n = 0; for i in 0..(self.state % 7) as u32 { n += 1; if !cb.call(i * 10) { break; } } n }
+    /// delivers k items (CBMODE, set by the driver; default state%7) through one of the library's three delivery paths (CBMODE): a call loop, `Extend`, `feed_into`;
+    /// returns the number of items it produced
+    fn cb(&self, mut cb: OpaqueCallback<u32>) -> usize {
+        log_call(vec![self.id, 10]);
+        let (mode, k) = CBMODE.with(|c| c.get());
+        let k = if k < 0 { (self.state % 7) as u32 } else { k as u32 };
+        let mut n = 0;
+        match mode {
+            0 => { for i in 0..k { n += 1; if !cb.call(i * 10) { break; } } }
+            1 => { cb.extend((0..k).map(|i| { n += 1; i * 10 })); }
+            _ => { use cglue::callback::FeedCallback; (0..k).map(|i| { n += 1; i * 10 }).feed_into(cb); }
+        }
+        n
+    }
     fn pod(&self, p: Pod) -> Pod { log_call(vec![self.id, 12, p.a as i64, p.b as i64, p.c]); Pod { a: p.a.wrapping_add(1), b: p.b ^ 0xffff, c: -p.c } }
     fn rs(&self) -> &[u8] { log_call(vec![self.id, 13]); &self.buf }
     fn rstr(&self) -> &str { log_call(vec![self.id, 14]); &self.s }
@@ -103,7 +116,17 @@ fn call_ref<T: ShapesRef>(t: &mut T, op: &[i64], scratch: &mut Scratch) -> Vec<i
         7 => { let v = a(1) as u32; let o = if a(1) < 0 { None } else { Some(&v) }; let r = t.opr(o); let row = vec![7, r.map(|x| *x as i64).unwrap_or(-1), r.map(|x| (x as *const u32 == &v as *const u32) as i64).unwrap_or(-1)]; rel_last(&v as *const u32 as i64, true); row }
         8 => vec![8, if a(1) % 2 == 0 { t.into_(a(1) as u32) } else { t.into_(a(1) as u8) } as i64],
         9 => { let mut out = a(1) as u32; let p = &mut out as *mut u32 as i64; t.outp(&mut out); rel_last(p, false); vec![9, out as i64] }
-        10 => { let stop = a(1) as usize; let mut got: Vec<u32> = vec![]; let mut f = |x: u32| { got.push(x); got.len() != stop }; let n = t.cb((&mut f).into()); let mut r = vec![10, n as i64]; r.extend(got.iter().map(|x| *x as i64)); r }
+        10 => {
+            let stop = a(1) as usize; let mut got: Vec<u32> = vec![]; let mut after_stop = 0usize;
+            let mut f = |x: u32| { if stop != 0 && got.len() >= stop { after_stop += 1; } got.push(x); got.len() != stop };
+            CBMODE.with(|c| c.set((a(2).rem_euclid(3), if op.len() > 3 { a(3).rem_euclid(9) } else { -1 })));
+            let n = t.cb((&mut f).into());
+            // absolute expectations (a fault in the library's delivery paths hits the direct call and the object alike)
+            if after_stop > 0 { expect_fail(format!("callback argument: the caller's closure answered stop after {} items and was invoked {} more times", stop, after_stop)); }
+            if n != got.len() { expect_fail(format!("callback argument: the callee produced {} items but the caller's closure received {}", n, got.len())); }
+            if got.iter().enumerate().any(|(i, x)| *x != i as u32 * 10) { expect_fail(format!("callback argument: the items arrived altered or out of order: {:?}", got)); }
+            let mut r = vec![10, n as i64]; r.extend(got.iter().map(|x| *x as i64)); r
+        }
         12 => { let p = Pod { a: a(1) as u8, b: a(2) as u32, c: a(3) }; let r = t.pod(p); vec![12, r.a as i64, r.b as i64, r.c] }
         13 => { let r = t.rs(); vec![13, r.len() as i64, digest(r)] }
         14 => { let r = t.rstr(); vec![14, r.len() as i64, digest(r.as_bytes())] }
@@ -170,6 +193,7 @@ fn layout_probe(mon: &mut Mon) {
     let _ = take_log(); let _ = take_drops();
 }
 
+thread_local! { static CBMODE: std::cell::Cell<(i64, i64)> = std::cell::Cell::new((0, -1)); }
 thread_local! { static EXPECT: RefCell<Vec<String>> = RefCell::new(Vec::new()); }
 /// an absolute expectation of the caller (independent of the direct-vs-opaque comparison) failed
 fn expect_fail(s: String) { let d = crate::alloc::domain(0); EXPECT.with(|e| e.borrow_mut().push(s)); crate::alloc::domain(d); }
